@@ -126,6 +126,11 @@ pub struct Spend {
     /// 4 ASSERT_EPHEMERAL, 5 RESERVE_FEE 0
     #[serde(default)]
     pub fillers: Vec<(u8, u8)>,
+    /// Some(x): this spend also emits a CREATE_COIN with the puzzle hash and amount of the
+    /// ephemeral coin spent by spend x, although it is not x's parent — a second, unrelated
+    /// output that only shares (puzzle hash, amount) with the ephemeral coin
+    #[serde(default)]
+    pub decoy_for: Option<usize>,
 }
 
 #[derive(Serialize, Deserialize, Clone, Debug, PartialEq)]
@@ -560,6 +565,17 @@ fn build_tree_mode(a: &mut Allocator, case: &Case, b: &Built, generator: bool) -
                 let op = a.new_atom(&[51]).unwrap();
                 let ph = a.new_atom(&b.puzzles[j]).unwrap();
                 let am = a.new_atom(&int_atom(case.spends[j].amount)).unwrap();
+                conds.push(list(a, &[op, ph, am]));
+            }
+        }
+        // a look-alike output: same puzzle hash and amount as somebody else's ephemeral child
+        if let Some(x) = sp.decoy_for {
+            if x < n && x != i && matches!(case.spends[x].parent_spend, Some(p) if p != i && p < n)
+                && !(0..n).any(|j| j != x && case.spends[j].parent_spend == Some(i) && b.puzzles[j] == b.puzzles[x] && case.spends[j].amount == case.spends[x].amount)
+            {
+                let op = a.new_atom(&[51]).unwrap();
+                let ph = a.new_atom(&b.puzzles[x]).unwrap();
+                let am = a.new_atom(&int_atom(case.spends[x].amount)).unwrap();
                 conds.push(list(a, &[op, ph, am]));
             }
         }
@@ -1188,6 +1204,11 @@ impl Engine for C03 {
                         Some(j) if j > i => Some(j - 1),
                         x => x,
                     };
+                    sp.decoy_for = match sp.decoy_for {
+                        Some(j) if j == i => None,
+                        Some(j) if j > i => Some(j - 1),
+                        x => x,
+                    };
                 }
                 c.events = c
                     .events
@@ -1352,6 +1373,7 @@ impl C03 {
                         .collect()
                 },
                 conds,
+                decoy_for: None,
             });
         }
         // break parent cycles (a -> b -> a): keep links only towards a spend that is not itself linked back
@@ -1371,6 +1393,20 @@ impl C03 {
                 if cyc {
                     spends[i].parent_spend = None;
                     spends[i].amount = 1000 + rng.below(1000);
+                }
+            }
+        }
+        // look-alike outputs: with three or more spends, a spend that is neither the ephemeral coin
+        // nor its parent sometimes creates a coin with the same puzzle hash and amount
+        if nspends >= 3 {
+            for x in 0..nspends {
+                if let Some(p) = spends[x].parent_spend {
+                    if rng.chance(1, 3) {
+                        let b = rng.usize_below(nspends);
+                        if b != x && b != p && spends[b].decoy_for.is_none() {
+                            spends[b].decoy_for = Some(x);
+                        }
+                    }
                 }
             }
         }
@@ -1400,14 +1436,14 @@ impl C03 {
                 sp.parent_seed = (sp.parent_seed << 6) | i as u64;
                 if sp.parent_spend.is_some() {
                     sp.amount = 1 + i as u64;
+                } else {
+                    // roots: distinct from every child amount and from each other
+                    sp.amount = 1000 + 64 * (sp.amount % 1000) + i as u64;
                 }
             }
-            for i in 0..nspends {
-                let need: u64 = (0..nspends).filter(|j| case.spends[*j].parent_spend == Some(i)).map(|j| case.spends[j].amount).sum();
-                if case.spends[i].amount < need {
-                    case.spends[i].amount = need + rng.below(3);
-                }
-            }
+            // (no "a parent is worth at least its children" fix-up here: it could make two
+            // children of one parent equal in amount, i.e. the same coin; consensus only requires
+            // the bundle's removals to cover its additions, which always holds)
         }
 
         let reference = Reference::new(&case);
